@@ -16,9 +16,11 @@ type verifReceiveAdapter struct {
 	on func(kind string, req *rtsp.Request, resp *rtsp.Response, pack *rtp.Packet) error
 }
 
-func (a verifReceiveAdapter) onRequest(req *Request) error    { return a.on("request", req, nil, nil) }
-func (a verifReceiveAdapter) onResponse(resp *Response) error { return a.on("response", nil, resp, nil) }
-func (a verifReceiveAdapter) onPack(pack *RTPPack) error      { return a.on("frame", nil, nil, pack) }
+func (a verifReceiveAdapter) onRequest(req *Request) error { return a.on("request", req, nil, nil) }
+func (a verifReceiveAdapter) onResponse(resp *Response) error {
+	return a.on("response", nil, resp, nil)
+}
+func (a verifReceiveAdapter) onPack(pack *RTPPack) error { return a.on("frame", nil, nil, pack) }
 
 // VerifReceive reads exactly one message or interleaved frame from r with the real
 // dispatcher (receive) and reports what it was (verification builds only).
